@@ -3643,6 +3643,11 @@ class ControlConnection(object):
         Replace existing connection (if there is one) and close it.
         """
         with self._lock:
+            if self._is_shutdown:
+                # shutdown() ran while this connection was being established
+                log.debug("[control connection] Closing connection %r established during shutdown", conn)
+                conn.close()
+                return
             old = self._connection
             self._connection = conn
 
